@@ -16,6 +16,7 @@ Two DUT variants per run (scenario knob "dut"):
 import hashlib
 
 from dsim.kernel import make_bench, cached_bench, Violations
+from models.usb2_wire import gen_idle_data
 from models.usb2 import UTMIHost
 from models import streams_usb2 as su
 from engines.usb2_device import device_bench, IDLE_INIT
@@ -132,6 +133,7 @@ def gen(rng, tier, index):
         cfg = {"dut": "device", "variant": variant, "mps": mps, "width": width, "words": words,
                "byte_period": rng.choice([1, 1, 2]), "turn": bit * rng.choice([2, 3, 6]),
                "txready": rng.choice(["always", "always", ["every", 2], ["every", 3]])}
+        cfg["idle_data"] = gen_idle_data(rng)
         return {"engine": ENGINE, "config": cfg, "ops": ops}
     width = (index // 8) % 8 + 1 if rng.random() < 0.8 else rng.randint(1, 8)
     words = gen_words(rng, width, 30 if tier == "quick" else 80)
@@ -150,6 +152,7 @@ def gen(rng, tier, index):
         phases.append([n, mode])
         t += n
     cfg = {"dut": "component", "width": width, "words": words, "ready": phases}
+    cfg["idle_data"] = gen_idle_data(rng)
     return {"engine": ENGINE, "config": cfg, "ops": []}
 
 
@@ -341,7 +344,7 @@ def _run_device(scn, probes):
         yield from h.idle(6)
 
     txr = cfg["txready"] if cfg["txready"] == "always" else tuple(cfg["txready"])
-    host = UTMIHost(script, byte_period=cfg["byte_period"], pre=1, post=0, txready=txr)
+    host = UTMIHost(script, idle_data=cfg.get("idle_data"), byte_period=cfg["byte_period"], pre=1, post=0, txready=txr)
     stall = 1 if txr == "always" else 3
     per_txn = 12 * cfg["byte_period"] + (mps + 6) * stall + 2 * ctx.timeout + 4 * ctx.turn + 40
     max_cycles = 1000 + sum(op.get("n", 0) for op in ops) + (len(ops) + 2 * drain_budget) * per_txn \
